@@ -34,6 +34,10 @@ def bounds(tier):
 def items(tier, seed):
     out = [dict(name="step_n%d_%s_%s" % c, kind="step", cfg=list(c)) for c in CONFIGS[tier]]
     out += [dict(name="tail_n%d_%s_%s" % c, kind="tail", cfg=list(c)) for c in CONFIGS[tier][:2]]
+    out.append(dict(name="config_grid", kind="grid", cfg=[0, 0, 0]))
+    for nb in ((2, 4) if tier == "quick" else (2, 3, 4, 5)):
+        for crit in (0.5, 0.25, 0.7):
+            out.append(dict(name="flatcheck_n%d_crit%s" % (nb, crit), kind="flatcheck", cfg=[nb, 0.0, 1.0], crit=crit))
     for i in range(2 if tier == "quick" else 6):
         out.append(dict(name="reference_run_%d" % i, kind="trace", seedv=i, cfg=list(CONFIGS[tier][i % 2])))
     return out
@@ -99,9 +103,110 @@ def argmin_spec(bincts, k):
     return idx
 
 
+def grid_configs():
+    out = []
+    for lo in range(0, 10):
+        for hi in range(lo + 1, 11):
+            for nb in range(1, 11):
+                w = (hi - lo) / 10.0 / nb
+                if abs(1.0 / w - round(1.0 / w)) < 1e-6 and abs((lo / 10.0) / w - round((lo / 10.0) / w)) < 1e-6:     # bin width divides 1 and the range is aligned with the partition
+                    out.append((nb, lo / 10.0, hi / 10.0))
+    return out
+
+
+def check_config(cfg):
+    """native construction of the machine for one configuration: bin geometry claims; returns list of problems"""
+    tmp = tempfile.mkdtemp(prefix="verif_c18_")
+    try:
+        m = make_machine(cfg, tmp)
+    finally:
+        shutil.rmtree(tmp, ignore_errors=True)
+    n = m.nbins_actual
+    c = m.getBinCenters()
+    probs = []
+    w = (cfg[2] - cfg[1]) / float(cfg[0])
+    if n != int(round(1.0 / w)):
+        probs.append("partition of [0,1] has %d bins, the requested bin width %r needs %d" % (n, w, int(round(1.0 / w))))
+    if any(abs(float(c[i]) - (2 * i + 1) / (2.0 * n)) > 1e-9 for i in range(n)):
+        probs.append("bin centres are not the midpoints of an equal partition of [0,1]")
+    if int(m.relevant_max) - int(m.relevant_min) + 1 != cfg[0]:
+        probs.append("requested range covers %d bins instead of %d" % (int(m.relevant_max) - int(m.relevant_min) + 1, cfg[0]))
+    if abs(int(m.relevant_min) / float(n) - cfg[1]) > 1e-9 or abs((int(m.relevant_max) + 1) / float(n) - cfg[2]) > 1e-9:
+        probs.append("bins %d..%d of %d cover [%r, %r], requested range is [%r, %r]" % (m.relevant_min, m.relevant_max, n, int(m.relevant_min) / float(n), (int(m.relevant_max) + 1) / float(n), cfg[1], cfg[2]))
+    return probs
+
+
+def run_grid(item):
+    res = new_result()
+    res["paths"] = 1
+    n = 0
+    for cfg in grid_configs():
+        res["obligations"] += 1
+        n += 1
+        probs = check_config(list(cfg))
+        if probs:
+            res["sat"] += 1
+            res["candidates"].append(dict(kind="grid", cfg=list(cfg), label=probs[0]))
+        else:
+            res["trivial"] += 1
+    res["witnesses"] += 1
+    res["samples"].append(dict(item="config_grid", configurations=n, obligation="for every (nbins, binmin, binmax) on the 0.1 grid whose bin width divides 1: partition size, midpoints, range = requested range (native construction)"))
+    return res
+
+
+def run_flatcheck(item):
+    """__run_flatcheck alone, executed symbolically on an arbitrary histogram"""
+    import localcider.backend.wang_landau as WL
+    os.environ.pop("LOCALCIDER_VERIF", None)
+    res = new_result()
+    tmp = tempfile.mkdtemp(prefix="verif_c18_")
+    try:
+        wlm = make_machine(item["cfg"], tmp)
+    finally:
+        shutil.rmtree(tmp, ignore_errors=True)
+    wlm.flatcrit = float(item["crit"])
+    I = interp(force_interp={"_WangLandauMachine__run_flatcheck", "fprintGVector", "getBinCenters", "getBinSize"})
+    I.uf = UFModel()
+    I.stubs[print] = lambda I_, *a, **k: None
+    I.stubs[WL.WangLandauMachine.writeLog] = lambda I_, self, logfile, output: None
+    n = wlm.nbins_actual
+    H0 = [z3.Int("H%d" % i) for i in range(n)]
+    g0 = [z3.Real("g%d" % i) for i in range(n)]
+    f0 = z3.Real("f")
+    niter0 = z3.Int("niter")
+    I.solver.add(f0 > 1, niter0 >= 0, *[z3.And(h >= 0, h <= 1000) for h in H0])
+    I.solver.add(z3.Sum(H0) > 0)
+
+    def cex(m):
+        return dict(kind="flatcheck", cfg=item["cfg"], crit=item["crit"], H=[m.eval(h, model_completion=True).as_long() for h in H0])
+
+    def thunk():
+        H = [Sym(h, "int") for h in H0]
+        return I.call(getattr(wlm, "_WangLandauMachine__run_flatcheck"), [H, list(H), Sym(niter0, "int"), Sym(f0, "real"), "hlog", "glog", [Sym(x, "real") for x in g0]], {})
+
+    def on_return(ob, val, m):
+        H1, f1, ni1, ns1 = val
+        tot = z3.Sum(H0)
+        flat = z3.And(*[z3.ToReal(H0[i]) * n >= rv(wlm.flatcrit) * z3.ToReal(tot) for i in range(n)])
+        f1z = zreal(f1) if is_sym(f1) else rv(float(f1))
+        H1z = [as_int(to_sym(x)) if is_sym(x) else z3.IntVal(int(x)) for x in H1]
+        ni = as_int(to_sym(ni1)) if is_sym(ni1) else z3.IntVal(int(ni1))
+        ob.prove(z3.If(flat, z3.And(f1z == I.uf.S(f0), ni == niter0 + 1, *[h == 0 for h in H1z]), z3.And(f1z == f0, ni == niter0, *[H1z[i] == H0[i] for i in range(n)])),
+                 "f -> sqrt f and histogram reset exactly when every bin holds at least flatcrit x mean, equality included (%s)" % item["name"], cex)
+        ob.prove((not is_sym(ns1)) and ns1 == 0, "the step counter restarts after a check", lambda m_: cex(m))
+        if not res["samples"]:
+            res["samples"].append(dict(item=item["name"], witness=cex(m), obligation="flat check on an arbitrary histogram (0 <= H_i <= 1000, total > 0)"))
+    explore(I, res, thunk, on_return, cex, label=item["name"])
+    return finish(I, res)
+
+
 def run_item(item):
     if item["kind"] == "trace":
         return run_trace(item)
+    if item["kind"] == "grid":
+        return run_grid(item)
+    if item["kind"] == "flatcheck":
+        return run_flatcheck(item)
     import localcider.backend.wang_landau as WL
     from localcider.backend.sequence import Sequence
     os.environ.pop("LOCALCIDER_VERIF", None)      # the symbolic step is encoded with the trace hook off (worker-process local)
@@ -457,6 +562,26 @@ def run_trace(item):
 
 
 def replay(cex):
+    if cex["kind"] == "grid":
+        probs = check_config(cex["cfg"])
+        return bool(probs), "configuration %r: %s" % (cex["cfg"], probs[0] if probs else "ok")
+    if cex["kind"] == "flatcheck":
+        import io, contextlib
+        tmp = tempfile.mkdtemp(prefix="verif_c18_")
+        try:
+            m = make_machine(cex["cfg"], tmp)
+            m.flatcrit = float(cex["crit"])
+            H = list(cex["H"])
+            n = len(H)
+            with contextlib.redirect_stdout(io.StringIO()):
+                H1, f1, ni1, ns1 = getattr(m, "_WangLandauMachine__run_flatcheck")(list(H), list(H), 3, 1.5, os.path.join(tmp, "h"), os.path.join(tmp, "g"), [0.0] * n)
+        finally:
+            shutil.rmtree(tmp, ignore_errors=True)
+        flat = all(F(h) * n >= F(cex["crit"]) * sum(H) for h in H)
+        did = (list(H1) == [0] * n and abs(f1 - 1.5 ** 0.5) < 1e-12 and ni1 == 4)
+        kept = (list(H1) == H and f1 == 1.5 and ni1 == 3)
+        bad = (flat and not did) or ((not flat) and not kept)
+        return bad, "histogram %r, flatcrit %r: every bin >= flatcrit x mean is %s, reset happened: %s" % (H, cex["crit"], flat, did)
     if cex["kind"] == "trace":
         out = check_trace(cex["cfg"], cex["seedv"])
         problems = out[0] if isinstance(out, tuple) else out
@@ -472,3 +597,7 @@ def replay(cex):
 
 def finding_key(cex):
     return "%s:%r" % (cex["kind"], cex["cfg"])
+
+
+ASSUMPTIONS.append("flat-check items execute __run_flatcheck alone on an arbitrary histogram (0 <= H_i <= 1000, total > 0) for flatcrit in {0.5, 0.25, 0.7}; "
+                   "the configuration grid item constructs the machine natively for every (nbins, binmin, binmax) on the 0.1 grid whose bin width divides 1 and whose range is aligned with the resulting partition")
